@@ -671,6 +671,8 @@ func runC14(c *Ctx) {
 		}
 	}
 
+	ruleOptsPointerFresh(c)
+
 	R.Rule("R-field-key", "E8+E4 pairing", "the client renders each option field under the key the server stores it from; NOTIFY separator, RRVS layout and the unitext/xtext choice agree", 10)
 	pairs := []struct{ fn, token, source string }{
 		{"(*Client).Mail", " SIZE=", `^MailOptions\.Size$`},
@@ -696,6 +698,34 @@ func runC14(c *Ctx) {
 			}
 		}
 		R.Ob(p.fn+"/renders"+p.token, c.P.Pos(f.Pos()), found, "parameter"+p.token+" is not rendered")
+	}
+	// the null identity: the server decodes "<>" to the empty string, so the client writes the empty string as "<>"
+	// (the xtext encoding of "" is "", and a bare "AUTH=" is refused)
+	if f := c.A.Func("(*Client).Mail"); f != nil {
+		null, xt := 0, 0
+		for _, w := range builderWrites(f) {
+			switch {
+			case w.konst == " AUTH=<>":
+				null++
+				c.obHolds("AUTH=<> iff the identity is empty", w.in, `*MailOptions.Auth == ""`)
+			case strings.HasPrefix(w.konst, " AUTH="):
+				xt++
+				c.obHolds("xtext AUTH only for a non-empty identity", w.in, `*MailOptions.Auth != ""`)
+			}
+		}
+		R.Ob("(*Client).Mail/empty AUTH identity is written as <>", c.P.Pos(f.Pos()), null >= 1 && xt >= 1, fmt.Sprintf("%d writes of \" AUTH=<>\", %d xtext writes: an empty identity (documented as AUTH=<>) is sent as a bare \"AUTH=\", which the server refuses", null, xt))
+	}
+	if f := c.A.Func("(*Conn).handleMail"); f != nil {
+		// server side of the pairing: "<>" is the only spelling of the empty identity
+		nullCmp := false
+		allInstrs(f, func(in ssa.Instruction) {
+			if bo, ok := in.(*ssa.BinOp); ok && (bo.Op.String() == "==" || bo.Op.String() == "!=") {
+				if k, ok := constString(bo.Y); ok && k == "<>" {
+					nullCmp = true
+				}
+			}
+		})
+		R.Ob("(*Conn).handleMail/decodes <> to the empty identity", c.P.Pos(f.Pos()), nullCmp, "the server no longer recognises AUTH=<>")
 	}
 	if f := c.A.Func("(*Client).Rcpt"); f != nil {
 		for _, site := range s.Find(f, "call:encodeUTF8AddrUnitext") {
